@@ -29,7 +29,9 @@ Pipeline (every step sequence of emitters, consumer and shutdown, any capacity):
   `C19_drop_never_blocks`, `C19_disconnect_only_after_shutdown`;
 * `C19_no_loss_at_shutdown_partial` — if no emit is concurrent with shutdown, then once the
   consumer has exited / seen `Disconnected` it has taken exactly the accepted events;
-  `C19_fails_F12b` — without that hypothesis the writer loses an accepted event.
+  `C19_fails_F12b` — without that hypothesis the writer loses an accepted event;
+  `C19_every_guard_end_shuts_down`, `C19_no_loss_any_guard_end_partial` — explicit shutdown, drop on
+  any thread and drop during panic unwinding all run the same flag-then-close sequence.
 -/
 namespace Fv.Props.C19
 open Fv.Log
@@ -292,6 +294,32 @@ theorem C19_no_loss_at_shutdown_partial (cap : Nat) (pol : Overflow) (c : Consum
       rw [hq2.exitedEmpty hexit, List.append_nil, hq2.acc] at this
       exact this
     exact ⟨hout, hq2.acc, fun t => by rw [hout]⟩
+
+/-- **Every end of the guard shuts down.** Explicit `shutdown`, a drop on any thread, and a drop
+while the owning thread unwinds from a panic all run `shutdown_impl` (flag, then close): the
+no-loss / disconnect statement below therefore applies to each of them. -/
+theorem C19_every_guard_end_shuts_down (g : GuardEnd) : shutdownSteps g = [.setFlag, .close] := by
+  cases g <;> rfl
+
+/-- `C19_no_loss_at_shutdown_partial` instantiated for any way the guard ends (no emit concurrent
+with it): afterwards an exited consumer has taken exactly what was accepted. -/
+theorem C19_no_loss_any_guard_end_partial (cap : Nat) (pol : Overflow) (c : Consumer) (g : GuardEnd)
+    (pre rest : List Step) (s1 s2 : State)
+    (hpre : run (init cap pol c) pre = some s1)
+    (hfresh : s1.flag = false ∧ s1.closed = false)
+    (hF12b_noInflight : s1.inflight = [])
+    (hrun : run s1 (shutdownSteps g ++ rest) = some s2)
+    (hexit : s2.phase = .exited) :
+    s2.out = s1.accepted ∧ s2.accepted = s1.accepted := by
+  rw [C19_every_guard_end_shuts_down g] at hrun
+  have := C19_no_loss_at_shutdown_partial cap pol c pre [] rest s1 s2 hpre hfresh hF12b_noInflight
+    (by intro st hst; cases hst) (by simpa using hrun) hexit
+  exact ⟨this.1, this.2.1⟩
+
+example :
+    (run (init 4 .block .stream)
+        ([.sendBegin ⟨0, 0⟩, .sendEnd ⟨0, 0⟩] ++ shutdownSteps (.drop true true) ++ [.consume, .seeDisconnected])).map
+      (fun s => (s.phase, s.out, s.accepted)) = some (.exited, [⟨0, 0⟩], [⟨0, 0⟩]) := by decide
 
 /-- non-vacuity: two threads emit, shutdown with nothing in flight, the writer drains and exits. -/
 example :
